@@ -12,10 +12,12 @@
 
   faithful to the code AS IT IS.  Which memo layers an edit invalidates is a configuration
   `Cfg` that the translator regenerates from the live source (`Generated/RegistryC12Cfg`):
-  `Cfg.asIs` is the present code (an edit resets the id memo and, for `modify`/`remove`, deletes
-  the one cache key equal to the symbol; nothing else), `Cfg.repaired` is the code after the
-  candidate fix (every edit clears the string cache and purges the derived entries, and the id
-  is computed over the non-derived entries).
+  `Cfg.asIs` is the code before the `fix:` commits (an edit resets the id memo and, for
+  `modify`/`remove`, deletes the one cache key equal to the symbol; nothing else); since them an edit
+  starts by forgetting the derived entries it wrote back (`purgeDerived`), ends — when it succeeds —
+  by emptying the string cache (`clearCache`), and `modify` resets the memo again after `in_base`
+  (`memoResetLast`); `Cfg.repaired` additionally computes the id over the non-derived entries
+  (`idSkipsDerived`, not part of the fix: a kept finding).
 
   The sympy parser is outside the model: `parse : String → Except Err (PExpr K)` is an arbitrary
   function (the theorems hold for every such function; the driver is handed the graph of the real
@@ -32,9 +34,9 @@ open Unyt
 
 /-- which memo layers an edit invalidates / what the id covers (regenerated from the source) -/
 structure Cfg where
-  /-- `add/modify/remove` empty `_unit_object_cache` -/
+  /-- a successful `add/modify/remove` ends by emptying `_unit_object_cache` -/
   clearCache : Bool
-  /-- `add/modify/remove` delete the derived (written-back) prefixed entries from `lut` -/
+  /-- `add/modify/remove` start by deleting the derived (written-back) prefixed entries from `lut` -/
   purgeDerived : Bool
   /-- `unit_system_id` is computed over the non-derived entries only -/
   idSkipsDerived : Bool
@@ -176,13 +178,18 @@ def pureEval (pre : Prefixes K) (c : Lut K) : PExpr K → Option (UnitD K)
     | none => none
     | some (v, d) => some ⟨co * v, 0, d⟩
 
-/-- the first statement of `add` / `modify` / `remove` (`self._unit_system_id = None`), plus —
-    in the repaired code — the cache clear and the purge of derived entries -/
+/-- the first statements of `add` / `modify` / `remove`: `self._unit_system_id = None` and — in the
+    repaired code — the purge of the derived entries -/
 def invalidate (cfg : Cfg) (s : RegState K) : RegState K :=
   let s1 : RegState K :=
     if cfg.purgeDerived then { s with lut := eraseKeys s.lut s.derived, derived := [] } else s
-  let s2 : RegState K := if cfg.clearCache then { s1 with cache := [] } else s1
-  { s2 with idMemo := none, memoStale := false }
+  { s1 with idMemo := none, memoStale := false }
+
+/-- the last statement of a successful edit of `sym`: the repaired code empties the string cache;
+    the present code deletes the key equal to `sym` in `modify`/`remove` (`delKey`) and nothing in `add` -/
+def cacheAfterEdit (cfg : Cfg) (cache : List (String × Nat)) (sym : String) (delKey : Bool) :
+    List (String × Nat) :=
+  if cfg.clearCache then [] else if delKey then cache.filter (·.1 ≠ sym) else cache
 
 /-- the table snapshot `unit_system_id` hashes -/
 def snapshot (cfg : Cfg) (s : RegState K) : Lut K :=
@@ -194,7 +201,8 @@ def step (cfg : Cfg) (pre : Prefixes K) (parse : String → Except Err (PExpr K)
   -- unit_registry.py:105-165
   | .add sym e =>
     let s := invalidate cfg s0
-    ({ s with lut := s.lut.set sym e, derived := s.derived.filter (· ≠ sym) }, .done)
+    ({ s with lut := s.lut.set sym e, cache := cacheAfterEdit cfg s.cache sym false,
+              derived := s.derived.filter (· ≠ sym) }, .done)
   | .addInvalid _ => (invalidate cfg s0, .err .UnitParseError)
   -- unit_registry.py:190-221
   | .modifyF sym v =>
@@ -203,7 +211,7 @@ def step (cfg : Cfg) (pre : Prefixes K) (parse : String → Except Err (PExpr K)
     | none => (s, .err .SymbolNotFoundError)
     | some e =>
       ({ s with lut := s.lut.set sym { e with scale := v },
-                cache := s.cache.filter (·.1 ≠ sym),
+                cache := cacheAfterEdit cfg s.cache sym true,
                 derived := s.derived.filter (· ≠ sym) }, .done)
   | .modifyQ sym v d own =>
     let s := invalidate cfg s0
@@ -215,7 +223,7 @@ def step (cfg : Cfg) (pre : Prefixes K) (parse : String → Except Err (PExpr K)
         if own && !cfg.memoResetLast then { s with idMemo := some (snapshot cfg s), memoStale := true }
         else s
       ({ s with lut := s.lut.set sym { e with scale := v, dim := d },
-                cache := s.cache.filter (·.1 ≠ sym),
+                cache := cacheAfterEdit cfg s.cache sym true,
                 derived := s.derived.filter (· ≠ sym) }, .done)
   -- unit_registry.py:167-188
   | .remove sym =>
@@ -224,7 +232,7 @@ def step (cfg : Cfg) (pre : Prefixes K) (parse : String → Except Err (PExpr K)
     | none => (s, .err .SymbolNotFoundError)
     | some _ =>
       ({ s with lut := s.lut.erase sym,
-                cache := s.cache.filter (·.1 ≠ sym),
+                cache := cacheAfterEdit cfg s.cache sym true,
                 derived := s.derived.filter (· ≠ sym) }, .done)
   -- unit_object.py:157-285 (string branch)
   | .unit q =>
@@ -322,25 +330,39 @@ def exprAvoids (sym : String) : PExpr K → Bool
     no derived entry hangs off `sym` (and, unless the edit overwrites it — `add` —, `sym`
     itself is not a derived key), and every cached string other than the one the edit deletes
     (`delKey`: `modify`/`remove` delete the key equal to `sym`) parses to an expression that
-    does not mention `sym` or a prefixed form of it -/
+    does not mention `sym` or a prefixed form of it — unless the edit empties the cache (`clears`) -/
 def editSafe (parse : String → Except Err (PExpr K)) (s : RegState K) (sym : String)
-    (delKey : Bool) : Bool :=
+    (delKey : Bool) (clears : Bool) : Bool :=
   s.derived.all (fun k => restNe k sym && (!delKey || k != sym)) &&
-  s.cache.all (fun p =>
+  (clears || s.cache.all (fun p =>
     (delKey && p.1 == sym) ||
     match parse p.1 with
     | .ok ex => exprAvoids sym ex
-    | .error _ => false)
+    | .error _ => false))
 
 /-- the decidable guard of one step in state `s` -/
 def opSafe (cfg : Cfg) (parse : String → Except Err (PExpr K)) (s : RegState K) : Op K → Bool
-  | .add sym _ => editSafe parse (invalidate cfg s) sym false
+  | .add sym _ => editSafe parse (invalidate cfg s) sym false cfg.clearCache
   | .addInvalid _ => true
-  | .modifyF sym _ => editSafe parse (invalidate cfg s) sym true
-  | .modifyQ sym _ _ _ => editSafe parse (invalidate cfg s) sym true
-  | .remove sym => editSafe parse (invalidate cfg s) sym true
+  | .modifyF sym _ => editSafe parse (invalidate cfg s) sym true cfg.clearCache
+  | .modifyQ sym _ _ _ => editSafe parse (invalidate cfg s) sym true cfg.clearCache
+  | .remove sym => editSafe parse (invalidate cfg s) sym true cfg.clearCache
   | .sysId => !s.memoStale && (cfg.idSkipsDerived || s.derived.isEmpty)
   | _ => true
+
+/-- the guard without its `unit_system_id` part: what the *resolution* of units needs (asking for the
+    id never changes the table, the string cache or the objects) -/
+def opSafeCore (cfg : Cfg) (parse : String → Except Err (PExpr K)) (s : RegState K) : Op K → Bool
+  | .sysId => true
+  | op => opSafe cfg parse s op
+
+def safeRunCore (cfg : Cfg) (pre : Prefixes K) (parse : String → Except Err (PExpr K)) :
+    RegState K → List (Op K) → Bool
+  | _, [] => true
+  | s, o :: h => opSafeCore cfg parse s o && safeRunCore cfg pre parse (step cfg pre parse s o).1 h
+
+/-- forget the id memo (the rest of the state never depends on it) -/
+def strip (s : RegState K) : RegState K := { s with idMemo := none, memoStale := false }
 
 /-- every step of the history is safe in the state it is executed in -/
 def safeRun (cfg : Cfg) (pre : Prefixes K) (parse : String → Except Err (PExpr K)) :
